@@ -69,6 +69,10 @@ def jobs(tier, seed):
     for method in ('central', 'forward', 'complex', 'multicomplex') + (('backward',) if th else ()):
         for shape in ([], [3], [2, 2], [2, 1, 2]):
             out.append(('e2e-%s-%s' % (method, 'x'.join(map(str, shape)) or 's'), dict(kind='e2e', k=0, c=0, shape=shape, method=method)))
+        if method != 'multicomplex':
+            # non C-contiguous inputs (Fortran order / transposed view): k=1 marks the memory layout
+            for shape in ([2, 2], [3, 2], [2, 1, 2]):
+                out.append(('e2e-%s-%s-F' % (method, 'x'.join(map(str, shape))), dict(kind='e2e', k=1, c=0, shape=shape, method=method)))
     return out
 
 
@@ -77,7 +81,7 @@ def run_job(job, kind, k, c, shape, method):
         return unit(job, k, c, tuple(shape))
     if kind == 'vstack':
         return vstack(job)
-    return e2e(job, method, tuple(shape))
+    return e2e(job, method, tuple(shape), fortran=bool(k))
 
 
 def _out_terms(r, j):
@@ -201,10 +205,12 @@ def vstack(job):
             job.confirm('size mismatch raises ValueError', True)
 
 
-def e2e(job, method, shape):
+def e2e(job, method, shape, fortran=False):
     nd = cm.nd_mods()['nd']
     size = int(np.prod(shape)) if shape else 1
     xs = np.linspace(0.25, 1.5, size).reshape(shape) if shape else 0.75
+    if fortran:
+        xs = np.asfortranarray(xs)
     deg = 2
 
     def elem_names(idx):
@@ -224,8 +230,8 @@ def e2e(job, method, shape):
             raise sn.Unsupported('per-element coefficients on a Bicomplex array')
         if shape == ():
             return cm.poly_fun(coef[()])(x)
-        out = np.empty(shape, dtype=object)
         xa = np.asarray(x)
+        out = np.empty_like(xa, dtype=object)        # an elementwise function keeps the memory layout of its argument
         for idx in np.ndindex(shape):
             out[idx] = cm.poly_fun(coef[idx])(xa[idx])
         return out.view(sn.SymArr)
@@ -241,7 +247,8 @@ def e2e(job, method, shape):
         def harness():
             del seen_args[:]
             with tr.traced(), sn.abstract_division(products=True), cm.quiet():
-                gen = nd.MinStepGenerator(base_step=0.25, step_ratio=2.0, num_steps=3, step_nom=1.0)
+                # default nominal step (an elementwise function of x) keeps the memory layout of x in x + h
+                gen = nd.MinStepGenerator(base_step=0.25, step_ratio=2.0, num_steps=3, step_nom=None if fortran else 1.0)
                 d = nd.Derivative(f, step=gen, method=method, n=1, order=2)
                 return d(xv, marker, key=kwmarker), list(seen_args)
         ex = sn.Explorer(harness, max_paths=64, timeout_ms=20000)
@@ -282,7 +289,7 @@ def e2e(job, method, shape):
 
             def harness_s():
                 with tr.traced(), sn.abstract_division(products=True), cm.quiet():
-                    gen = nd.MinStepGenerator(base_step=0.25, step_ratio=2.0, num_steps=3, step_nom=1.0)
+                    gen = nd.MinStepGenerator(base_step=0.25, step_ratio=2.0, num_steps=3, step_nom=None if fortran else 1.0)
                     return nd.Derivative(fs, step=gen, method=method, n=1, order=2)(float(np.asarray(xs)[idx]), marker, key=kwmarker)
             exs = sn.Explorer(harness_s, max_paths=64, timeout_ms=20000)
             ps = [q for q in exs.paths() if q.exc is None]
@@ -358,14 +365,18 @@ def replay(cex):
         method, shape = cfg['method'], tuple(cfg['shape'])
         size = int(np.prod(shape)) if shape else 1
         xs = np.linspace(0.25, 1.5, size).reshape(shape) if shape else 0.75
+        if cfg.get('k'):
+            xs = np.asfortranarray(xs)
         for trial in range(5):
             cs = rng.uniform(-1, 1, size=(3,) + shape)
+            if cfg.get('k'):
+                cs = [np.asfortranarray(c) for c in cs]      # same memory layout as x: an elementwise f preserves it
             seen = []
 
             def f(x, tag, key=None):
                 seen.append(tag == 'T' and key == 'K')
                 return cs[0] + cs[1] * x + cs[2] * x * x
-            gen = nd.MinStepGenerator(base_step=0.25, step_ratio=2.0, num_steps=3, step_nom=1.0)
+            gen = nd.MinStepGenerator(base_step=0.25, step_ratio=2.0, num_steps=3, step_nom=None if cfg.get('k') else 1.0)
             try:
                 with cm.quiet():
                     val = nd.Derivative(f, step=gen, method=method, n=1, order=2)(xs, 'T', key='K')
@@ -377,12 +388,12 @@ def replay(cex):
                 return True, 'extra arguments not forwarded to f'
             for idx in (list(np.ndindex(shape))[:3] if shape else []):
                 def fsc(x, tag, key=None, idx=idx):
-                    return cs[(0,) + idx] + cs[(1,) + idx] * x + cs[(2,) + idx] * x * x
+                    return cs[0][idx] + cs[1][idx] * x + cs[2][idx] * x * x
                 with cm.quiet():
                     sv = nd.Derivative(fsc, step=gen, method=method, n=1, order=2)(float(xs[idx]), 'T', key='K')
                 if np.asarray(val)[idx] != sv and method in ('central', 'forward', 'backward'):
                     return True, 'entry %s of the array result %r differs from the scalar evaluation %r' % (idx, np.asarray(val)[idx], sv)
-                want = cs[(1,) + idx] + 2 * cs[(2,) + idx] * xs[idx]
+                want = cs[1][idx] + 2 * cs[2][idx] * xs[idx]
                 if abs(np.asarray(val)[idx] - want) > 1e-6 * (1 + abs(want)):
                     return True, 'entry %s = %r, derivative of the element function is %r' % (idx, np.asarray(val)[idx], want)
         return False, 'elementwise on random coefficient draws'
